@@ -1,12 +1,12 @@
 SPECIFICATION Spec
 CONSTANT MaxThreads = 2
 CONSTANT MaxTasks = 2
-CONSTANT MaxOps = 3
+CONSTANT MaxOps = 4
 CONSTANT MaxSpawn = 3
-CONSTANT FlagUnderMutex = FALSE
-CONSTANT Expiry = FALSE
+CONSTANT FlagUnderMutex = TRUE
+CONSTANT Expiry = TRUE
 CONSTANT FinishedAtomic = TRUE
 CONSTANT AllowSpurious = FALSE
-INVARIANTS TypeOK NoRace
+INVARIANTS TypeOK NoDeadlockB PoolBounded QueueConsistent AllDestroyedAtEnd MutexOK NoRace
 CONSTRAINT SpawnBound
 CHECK_DEADLOCK FALSE
